@@ -143,8 +143,9 @@ namespace TasmanianFourierTransform{
     //! \ingroup TasmanianLinearSolvers
 
     //! Consider the line which is a subset of \b data defined by \b indexes and perform the radix-3 fast-fourier-transform.
-    //! Called from \b fast_fourier_transform().
-    void fast_fourier_transform1D(std::vector<std::vector<std::complex<double>>> &data, std::vector<int> &indexes);
+    //! Called from \b fast_fourier_transform(), possibly by several threads on disjoint sets of \b indexes;
+    //! \b num_outputs is the size of every entry of \b data (passed in so that no thread reads an entry owned by another one).
+    void fast_fourier_transform1D(std::vector<std::vector<std::complex<double>>> &data, std::vector<int> &indexes, int num_outputs);
 }
 
 //! \internal
